@@ -272,9 +272,34 @@ var (
 	tByteArr = []int{0, 1, 2, 4, 20, 32}
 )
 
+// customType: one of the custom Serializable types; the coded twins get an object code on first use.
+func (g *tgen) customType(comparable bool) reflect.Type {
+	n := 3
+	if comparable {
+		n = 2 // CuSelf holds a slice
+	}
+	i := g.rng.Intn(n)
+	if g.rng.Bool() {
+		return customPlain[i]
+	}
+	t := customCoded[i]
+	if !g.registered[t] {
+		if g.rng.Bool() {
+			g.register(t, serix.TypeSettings{}.WithObjectType(uint8(g.freshCode()%256)))
+		} else {
+			g.register(t, serix.TypeSettings{}.WithObjectType(g.freshCode()))
+		}
+	}
+
+	return t
+}
+
 func (g *tgen) leaf() reflect.Type {
 	if g.rng.Chance(1, 8) {
 		return hx.Pick(g.rng, tNamedScalars)
+	}
+	if g.rng.Chance(1, 10) {
+		return g.customType(false)
 	}
 	switch x := g.rng.Intn(100); {
 	case x < 10:
@@ -390,6 +415,9 @@ func (g *tgen) elemType(depth int) (reflect.Type, bool) {
 }
 
 func (g *tgen) keyType(depth int) reflect.Type {
+	if g.rng.Chance(1, 7) {
+		return g.customType(true)
+	}
 	switch x := g.rng.Intn(100); {
 	case x < 8:
 		return tBool
